@@ -7,6 +7,26 @@ import PMV.Proofs.CliRun
 namespace PMV.C15
 open PMV.Cli
 
+theorem nodup_eraseDups : ∀ (l : List String), l.eraseDups.Nodup
+  | [] => by simp
+  | a :: as => by
+    rw [List.eraseDups_cons]
+    have hlen : (as.filter fun b => !b == a).length < (a :: as).length :=
+      Nat.lt_succ_of_le (List.length_filter_le _ _)
+    have ih := nodup_eraseDups (as.filter fun b => !b == a)
+    refine List.nodup_cons.mpr ⟨?_, ih⟩
+    intro hmem
+    rw [List.mem_eraseDups, List.mem_filter] at hmem
+    simp at hmem
+termination_by l => l.length
+
+/-- T15.0: the visit list contains no path twice (repeated arguments, a directory together with a file in it). -/
+theorem visit_list_nodup (suffixes : List String) (isDir : String → Bool)
+    (walk : String → List (String × String)) (paths : List String) :
+    (sourceModules suffixes isDir walk paths).Nodup := by
+  unfold sourceModules
+  exact nodup_eraseDups _
+
 /-- T15.1: after an in-place run every file holds its original bytes or the complete result for
     those bytes (hypothesis: each path is visited once — see DESIGN §6 C15 for symlink aliases). -/
 theorem post_state (force : Bool) (out : String) (api : List UInt8 → Outcome) (fs : FS) (l : List String)
@@ -29,7 +49,7 @@ theorem visit_list_targets (suffixes : List String) (isDir : String → Bool)
     (walk : String → List (String × String)) (paths : List String) (p : String)
     (h : p ∈ sourceModules suffixes isDir walk paths) :
     p ∈ paths ∨ ∃ d ∈ paths, ∃ name, (p, name) ∈ walk d ∧ isTarget suffixes name = true := by
-  simp only [sourceModules, List.mem_flatMap] at h
+  simp only [sourceModules, List.mem_eraseDups, List.mem_flatMap] at h
   obtain ⟨d, hd, hp⟩ := h
   split at hp
   · right
@@ -73,5 +93,13 @@ example :
     let api : List UInt8 → Outcome := fun b => if b == [1, 1, 1] then .ok [7] else .fail
     let r := runMain false .inPlace "" api [("a.py", [1, 1, 1]), ("b.py", [2])] ["a.py", "b.py"]
     r.failed = true ∧ r.fs.get "a.py" = some [7] ∧ r.fs.get "b.py" = some [2] := by decide
+
+/-- T15.1 for the list the tool really visits: no hypothesis left. -/
+theorem post_state_visited (force : Bool) (out : String) (api : List UInt8 → Outcome) (fs : FS)
+    (suffixes : List String) (isDir : String → Bool) (walk : String → List (String × String)) (paths : List String) (p : String) :
+    let r := runMain force .inPlace out api fs (sourceModules suffixes isDir walk paths)
+    r.fs.get p = fs.get p ∨
+      ∃ src m, fs.get p = some src ∧ api src = .ok m ∧ r.fs.get p = some (written force src m) :=
+  post_state force out api fs _ (visit_list_nodup suffixes isDir walk paths) p
 
 end PMV.C15
